@@ -336,8 +336,17 @@ fn fresh_process_ops_phase(opts: &Opts) -> runner::ExtraPhase {
     for idx in 0..n_scen {
         let mut rng = simrng::SimRng::for_run(opts.seed, "C18", idx);
         let sc = c.generate(&mut rng, opts.tier, idx);
+        // the first two operations of the first two clients, plus every operation that uses
+        // caller-supplied generators (first use of anything lazily initialised or remembered)
+        let mut sample: Vec<&checks::c18::Op> = Vec::new();
         for client in sc.clients.iter().take(2) {
-            for op in client.iter().filter(|o| !matches!(o, checks::c18::Op::DropClones)).take(2) {
+            sample.extend(client.iter().filter(|o| !matches!(o, checks::c18::Op::DropClones)).take(2));
+        }
+        for client in sc.clients.iter() {
+            sample.extend(client.iter().filter(|o| matches!(o, checks::c18::Op::WithIdentityGenerator { .. })).take(2));
+        }
+        {
+            for op in sample {
                 free::reset_run_state();
                 let want = checks::c18::in_process_digest(&sc.group, op);
                 let got = fresh_digest(&sc.group, op);
